@@ -58,6 +58,7 @@ func main() {
 				continue
 			}
 			fmt.Fprintln(out, safeRun(f, t))
+			out.Flush()
 		}
 	case "check":
 		// impl check <prop>: S verdict per case line (OK / SKIP / FAIL site=.. detail=..)
@@ -77,6 +78,7 @@ func main() {
 				continue
 			}
 			fmt.Fprintln(out, safeCheck(f, t))
+			out.Flush() // a fatal runtime error must be attributable to the case it happened on
 		}
 	case "oracle":
 		seed, _ := strconv.ParseUint(os.Args[3], 10, 64)
